@@ -1,6 +1,7 @@
 -- GENERATED. Root of the regenerated fact tables.
 import MpsGen.Alg
 import MpsGen.Hash
+import MpsGen.Paillier
 import MpsGen.Pool
 import MpsGen.Protocols
 import MpsGen.Session
